@@ -12,6 +12,12 @@ static void emit_context_error(
     const char *hint
 );
 
+/* Number of error diagnostics emitted through emit_context_error() during the
+ * current type_check().  Diagnostics raised inside check_expression() have no
+ * access to the TypeChecker, so type_check() consults this counter as well:
+ * a program for which an error was reported is never accepted. */
+static int g_tc_emitted_errors = 0;
+
 /* Type checking context */
 typedef struct {
     Environment *env;
@@ -3870,6 +3876,7 @@ static void emit_context_error(
     const char *message,
     const char *hint
 ) {
+    g_tc_emitted_errors++;
     if (g_typecheck_current_file) {
         print_error_header(title, g_typecheck_current_file);
     } else {
@@ -4797,6 +4804,7 @@ bool type_check(ASTNode *program, Environment *env) {
     TypeChecker tc;
     tc.env = env;
     tc.has_error = false;
+    g_tc_emitted_errors = 0;
     tc.warnings_enabled = true;  /* Enable unused variable warnings */
     tc.in_unsafe_block = false;  /* Start outside unsafe blocks */
     tc.loop_depth = 0;           /* Start outside loops */
@@ -5603,7 +5611,7 @@ sdef.is_pub = item->as.struct_def.is_pub;            /* Propagate public visibil
         tc.has_error = true;
     }
 
-    return !tc.has_error;
+    return !tc.has_error && g_tc_emitted_errors == 0;
 }
 
 /* Type check a module (without requiring main function) */
@@ -6262,5 +6270,5 @@ sdef.is_pub = item->as.struct_def.is_pub;            /* Propagate public visibil
     /* Note: Modules don't require a main function */
     /* Main function check is skipped for modules */
 
-    return !tc.has_error;
+    return !tc.has_error && g_tc_emitted_errors == 0;
 }
